@@ -14,7 +14,7 @@ use neurons::tensor::Tensor;
 pub fn meta(ctx: &Ctx) -> Meta {
     let d = depth(ctx);
     Meta {
-        rule: format!("block layer lists {{[dense],[dense,dense],[conv],[conv,conv],[deconv],[conv,deconv]}} x bias on/off (also lists that mix bias-free and bias-carrying dense layers) x loops 1..3 (5, 6, 8 for three of the lists) x coupling {{add,subtract,multiply,mean}} x optimizers {{SGD, SGD with learning rate 1e-6, SGDM, Adam, AdamW, RMSprop}} x block first / between other layers x the block's input / output skips on / off (loops <= 3); actions {{learn(A, batch 1), learn(B, 3 samples, batch 2), learn(A+B, batch 5, 2 epochs), learn on a sample whose target is the current prediction (all gradients exactly zero)}}; ALL action sequences of length <= {}; dense first-layer blocks also with one weight of 3e38 on an input component that is always zero (the coupled value leaves the f32 range while loss and gradients stay finite). Invariant in every state (initial state included): all unrolled copies of each block layer hold bit-identical weights, biases and kernels (NaN = NaN), and the `parameters:` line of Display counts each shared parameter once. States = histories; transitions = learn() calls; non-trivial = states in which the block's weights differ from their initial values", d),
+        rule: format!("block layer lists {{[dense],[dense,dense],[conv],[conv,conv],[deconv],[conv,deconv]}} x bias on/off (also lists that mix bias-free and bias-carrying dense layers) x loops 1..3 (5, 6, 8 for three of the lists) x coupling {{add,subtract,multiply,mean}} x optimizers {{SGD, SGD with learning rate 1e-6, SGDM, Adam, AdamW, RMSprop}} x block first / between other layers x the block's input / output skips on / off (loops <= 3); actions {{learn(A, batch 1), learn(B, 3 samples, batch 2), learn(A+B, batch 5, 2 epochs), learn on a sample whose target is the current prediction (all gradients exactly zero)}}; ALL action sequences of length <= {}; WIDE block layers (dense 48 -> 48 and 50 -> 48 with bias, a 16-channel 16-filter 3x3 convolution: more than 2 048 parameters each) under mean / additive coupling, SGD and Adam, three histories; dense first-layer blocks also with one weight of 3e38 on an input component that is always zero (the coupled value leaves the f32 range while loss and gradients stay finite). Invariant in every state (initial state included): all unrolled copies of each block layer hold bit-identical weights, biases and kernels (NaN = NaN), and the `parameters:` line of Display counts each shared parameter once. States = histories; transitions = learn() calls; non-trivial = states in which the block's weights differ from their initial values", d),
         bound: format!("history depth {}; complete over the configuration product", d),
         exhaustive: true,
         assumptions: vec!["overwrite coupling is explicitly unimplemented in the library and outside the statement".into()],
@@ -83,6 +83,23 @@ pub fn configs() -> Vec<Net> {
                     }
                 }
             }
+        }
+    }
+    out
+}
+
+pub fn wide_configs() -> Vec<Net> {
+    let d = |n: usize, bias: bool| L::Dense { n, act: Act::Tanh, bias, drop: None };
+    let head = L::Dense { n: 2, act: Act::Linear, bias: true, drop: None };
+    let mut out = Vec::new();
+    for acc in [Acc::Mean, Acc::Add] {
+        for loops in [2usize, 3] {
+            out.push(Net::new(Dims::Flat(48), vec![L::Fb { layers: vec![d(48, true)], loops, inskips: false, outskips: false, acc }, head.clone()]));
+            out.push(Net::new(Dims::Flat(6), vec![d(48, false), L::Fb { layers: vec![d(50, true), d(48, true)], loops, inskips: false, outskips: false, acc }, head.clone()]));
+            out.push(Net::new(
+                Dims::Chw(16, 3, 3),
+                vec![L::Fb { layers: vec![L::Conv { f: 16, k: (3, 3), s: (1, 1), p: (1, 1), d: (1, 1), act: Act::Tanh, drop: None }], loops, inskips: false, outskips: false, acc }, head.clone()],
+            ));
         }
     }
     out
@@ -265,6 +282,15 @@ pub fn cases(ctx: &Ctx) -> Vec<Kv> {
     for net in configs() {
         for o in optimizers() {
             for h in &maximal {
+                out.push(Kv::new().put("net", net.name()).put("opt", o.name()).put("history", h.iter().map(|a| a.to_string()).collect::<Vec<_>>().join(",")));
+            }
+        }
+    }
+    // WIDE block layers (a 48 -> 48 dense layer with bias: 2 352 parameters; a 16-channel 16-filter 3x3 convolution: 2 304):
+    // sizes at which an implementation might re-couple through a blocked or parallel path
+    for net in wide_configs() {
+        for o in [optimizers()[0].clone(), optimizers()[3].clone()] {
+            for h in maximal.iter().filter(|h| !h.is_empty()).take(3) {
                 out.push(Kv::new().put("net", net.name()).put("opt", o.name()).put("history", h.iter().map(|a| a.to_string()).collect::<Vec<_>>().join(",")));
             }
         }
